@@ -246,6 +246,30 @@ def run(seed, tier):
                         first[0] = b
                     last[0] = a
                     check_step(kind, b, a, info, problems)
+                    # Sivia-Skilling: the direction against the harness's OWN count of the history since the window (re)started - the
+                    # number of updates made and how many of them followed an accepted step - not the proposal's figures
+                    if kind in ('ss', 'ss_cov') and info['called'] and start == 1:
+                        if reset_at is not None and info['i'] == reset_at:
+                            own['calls'] = own['acc'] = 0
+                        own['calls'] = own.get('calls', 0) + 1
+                        own['acc'] = own.get('acc', 0) + int(bool(info['accepted']))
+                        rate = own['acc'] / own['calls']
+                        s0_, s1_ = adapt.scale_vars(kind, b), adapt.scale_vars(kind, a)
+                        wrong = None
+                        if own['calls'] >= 25 and rate < b['target'] - 0.15 and any(y > x for x, y in zip(s0_, s1_)):
+                            wrong = 'widened'
+                        if own['calls'] >= 25 and rate > b['target'] + 0.15 and any(y < x for x, y in zip(s0_, s1_)):
+                            wrong = 'narrowed'
+                        if wrong and not own.get('reported'):
+                            own['reported'] = True
+                            msg = ('update %d: %d of the %d updates since the window started followed an accepted step (rate %.3f, target %.3f) '
+                                   'and the proposal was %s (%s -> %s); it measures the rate as %d / %d'
+                                   % (info['i'] + 1, own['acc'], own['calls'], rate, b['target'], wrong, s0_, s1_, a['nacc'],
+                                      b['nsteps'] - (b['start'] - 1) + 1))
+                            if k > 1 and any(h['flag'] == 'ss_rate_after_interval_duration' for h in out.known_hits):
+                                out.count('covered_by_known_ss_rate_after_interval_duration')
+                            else:
+                                problems.append(msg)
                     # freezing by the harness's own count of proposal steps (update calls // jump interval, resets tracked)
                     i = info['i']
                     if reset_at is not None and i == reset_at:
